@@ -90,14 +90,27 @@ CLAIMED = {
              "proved to recover (rejoin / coordinator rediscovery / generation reset / backoff, never a raise) from every "
              "error code a Kafka coordinator can put in that reply, to rejoin on every SyncGroup error whatsoever, and to "
              "agree with the hand model's classification; the generated chains are validated against the real handlers "
-             "for every code -1..100. The convergence clause is decided by a monitor on "
-             "simulated groups with fault sequences followed by a quiet period (latest generation = live members, "
-             "heartbeats continue, full coverage, no further rebalance); its model-level proof is not done (partial).",
+             "for every code -1..100. The convergence clause is proved on a quiet-period model of the coordinator composed "
+             "with n members whose reactions to reply codes are those same translated chains: from every state satisfying the "
+             "invariant, for any number of members and any schedule, every quiet step preserves the invariant, every step "
+             "that is not a no-op heartbeat/commit exchange strictly decreases a natural-number variant, a real step stays "
+             "enabled until the state is converged, and a converged state is closed under quiet steps and emits no JoinGroup "
+             "- so every quiet execution ends with every live member in the coordinator's latest generation, heartbeating, "
+             "and no further rebalance. The quiet suffix of every simulated run (state read off the real objects at the "
+             "first snapshot after the environment's last action) must satisfy the invariant and be accepted step by step "
+             "inside Coq, with the model's converged verdict equal to the monitor's. The monitor on simulated groups "
+             "(fault sequences, error codes at every group request, topic growth during a rebalance, then a quiet period) "
+             "still states the whole clause incl. assignment coverage on the real consumers.",
         note="Trusted: Coq kernel; hand model tied by exhaustive differential testing with a fake coordinator object and the "
              "real request builders; dispatch2gallina translator (validated per run); the per-API error-code sets of a Kafka "
-             "coordinator (model/C06_Codes.v, hand-written); convergence is a simulator monitor in virtual time, not a "
-             "theorem. No axioms.",
-        technique="Coq proofs over a function model and over dispatch chains translated from source + exhaustive differential testing; simulation monitor for convergence",
+             "coordinator (model/C06_Codes.v, hand-written); model/C06_Converge.v is hand-written after the simulated "
+             "coordinator (Kafka classic protocol) and the control skeleton of group_coordinator.py, tied by T (dispatch "
+             "chains) and by per-run acceptance of quiet suffixes; its timing assumptions A1-A5 (no session of a live "
+             "member expires, only orphan ids expire, FindCoordinator answers the current coordinator, subscriptions and "
+             "partition counts fixed, no client-side request timeout in the quiet period); the invariant at the quiet start "
+             "is checked per run, not proved; real time, the environment phase and assignment coverage are decided by the "
+             "monitor. No axioms.",
+        technique="Coq proofs: function model, dispatch chains translated from source, LTS with a variant (per-member facts by exhaustive vm_compute reflection over a finite view) + exhaustive differential testing + trace acceptance and monitors under deterministic simulation",
         design="5/C06"),
     "C19": dict(
         text="Machine-checked proof (Coq 8.16) over the control skeleton of stop(): the final commit's retry loop makes exactly "
